@@ -137,6 +137,15 @@ TNext == \/ TNetTake \/ TNetDeliver
 
 TSpec == TInit /\ [][TNext]_tvars
 
+\* The two storage invariants walk over every byte of the storage.  Their truth can only change when the
+\* storage changes (a write is answered), when a completion is reported or when a request is accepted,
+\* so on a trace they are evaluated in exactly the states reached by those lines (4 KiB pages otherwise
+\* cost minutes per migration).
+Prev == IF l > 1 /\ l <= N + 1 THEN TraceLog[l - 1] ELSE [e |-> "none", k |-> ""]
+WroteJustNow == Prev.e = "MemRsp" /\ Prev.k = "wd"
+TContentsCopied == (WroteJustNow \/ Prev.e = "SendComplete") => ContentsCopied
+TNothingElseChanged == (WroteJustNow \/ Prev.e = "Accept") => NothingElseChanged
+
 Mark == HWNote(l)
 Accepted == HWReport(N)
 =============================================================================
